@@ -54,13 +54,29 @@ def optNat (j : Json) (k : String) : Option Nat :=
   | .ok v => match v.getNat? with | .ok n => some n | _ => none
   | _ => none
 
+/-- nesting depth of a JSON value (arrays / objects) -/
+partial def jsonDepth : Json → Nat
+  | .arr a => 1 + a.foldl (fun m x => max m (jsonDepth x)) 0
+  | .obj kvs => 1 + kvs.foldl (fun m _ v => max m (jsonDepth v)) 0
+  | _ => 0
+
+/-- does the frame's JSON read back: the frame object adds one level to the meta's nesting,
+    and serde_json refuses more than `Xs.Wire.maxDepth` (XsModel/Json.lean) -/
+def metaDecodable (m : Option String) : Bool :=
+  match m with
+  | none => true
+  | some t => match Json.parse t with
+    | .ok j => decide (jsonDepth j + 1 ≤ Xs.Wire.maxDepth)
+    | .error _ => false
+
 def frameOfJson (j : Json) : Frame :=
   { topic := hexToBytes ((optStr j "topic").getD "")
     ctx := hexToNat ((optStr j "ctx").getD "0")
     id := hexToNat ((optStr j "id").getD "0")
     hash := optStr j "hash"
     mdata := optStr j "meta"
-    ttl := (optStr j "ttl").bind ttlOfString }
+    ttl := (optStr j "ttl").bind ttlOfString
+    decodable := metaDecodable (optStr j "meta") }
 
 def optJ (o : Option String) : Json := match o with | some s => .str s | none => .null
 
@@ -73,6 +89,7 @@ def errToString : Err → String
   | .invalidContext => "invalid-context"
   | .ctxFrameNotZero => "ctx-frame-not-zero"
   | .nulInTopic => "nul-in-topic"
+  | .undecodable => "undecodable"
 
 def okJ (j : Json) : Json := Json.mkObj [("ok", j)]
 def errJ (s : String) : Json := Json.mkObj [("err", .str s)]
@@ -245,9 +262,89 @@ partial def followLoop (h : IO.FS.Stream) (s : Sys) (i : Nat) : IO Unit := do
             followLoop h s (i+1)
       | none => followLoop h s (i+1)
 
+/-! ### wire formats driver -/
+open Xs.Wire in
+def textOf (s : String) : Text := s.toList.map Char.toNat
+open Xs.Wire in
+def stringOf (t : Text) : String := String.ofList (t.map Char.ofNat)
+
+open Xs.Wire in
+partial def jOfJson : Json → J
+  | .null => .null
+  | .bool b => .bool b
+  | .num n => .num (textOf (toString n))
+  | .str s => .str (textOf s)
+  | .arr a => .arr (a.toList.map jOfJson)
+  | .obj kvs => .obj (kvs.toList.map (fun (k, v) => (textOf k, jOfJson v)))
+
+open Xs.Wire in
+def ttlJ (t : TTL) : Json := .str (stringOf (printTTL t))
+
+open Xs.Wire in
+def optsJ (o : ReadOpts) : Json :=
+  Json.mkObj [
+    ("follow", match o.follow with | .off => .str "off" | .on => .str "on" | .heartbeat ms => .num ms),
+    ("tail", .bool o.tail),
+    ("last", match o.lastId with | some i => .str (idToHex i) | none => .null),
+    ("limit", match o.limit with | some n => .num n | none => .null),
+    ("ctx", match o.contextId with | some i => .str (idToHex i) | none => .null)]
+
+open Xs.Wire in
+/-- `TTL::from_query`: the pairs go into a HashMap (a later duplicate wins); no `ttl` = default -/
+def ttlFromQuery (q : Text) : Res TTL :=
+  match ((parseQuery q).filter (fun kv => kv.1 = kTtl)).getLast? with
+  | some kv => parseTTL kv.2
+  | none => .ok .forever
+
+open Xs.Wire in
+def wireStep (j : Json) : Json :=
+  let kind := (optStr j "kind").getD ""
+  let s := (optStr j "s").getD ""
+  let bad (e : String) := Json.mkObj [("err", .str e)]
+  match kind with
+  | "ttl" => (match parseTTL (textOf s) with | .ok t => okJ (ttlJ t) | .err _ => bad "bad-ttl")
+  | "ttl_query" => (match ttlFromQuery (textOf s) with | .ok t => okJ (ttlJ t) | .err _ => bad "bad-ttl")
+  | "opts_query" => (match fromQuery (textOf s) with | .ok o => okJ (optsJ o) | .err _ => bad "bad-query")
+  | "opts_print" =>
+    let oj := (j.getObjVal? "opts").toOption.getD .null
+    let o : ReadOpts := {
+      follow := (match oj.getObjVal? "follow" with
+        | .ok (.str "on") => .on
+        | .ok (.num n) => .heartbeat n.mantissa.toNat
+        | _ => .off)
+      tail := (match oj.getObjVal? "tail" with | .ok (.bool b) => b | _ => false)
+      lastId := (optStr oj "last").map hexToNat
+      limit := optNat oj "limit"
+      contextId := (optStr oj "ctx").map hexToNat }
+    okJ (.str (stringOf (toQuery o)))
+  | "id" => (match parseId (textOf s) with | some i => okJ (.str (idToHex i)) | none => bad "bad-id")
+  | "frame_json" =>
+    (match Json.parse s with
+     | .error _ => bad "bad-json"
+     | .ok fj =>
+       -- hash validity is the ssri crate's: the harness tells us what it accepted
+       let hs : HashSpec := ⟨fun _ => (match j.getObjVal? "hash_valid" with | .ok (.bool b) => b | _ => true)⟩
+       match decodeFrame hs (jOfJson fj) with
+       | .ok f => okJ (Json.mkObj [("id", .str (idToHex f.id)), ("ctx", .str (idToHex f.ctx)),
+           ("topic", .str (bytesToHex ((stringOf f.topic).toUTF8.toList.map (·.toNat)))),
+           ("hash", match f.hash with | some h => .str (stringOf h) | none => .null),
+           ("meta", match f.mdata with | some _ => (fj.getObjVal? "meta").toOption.getD .null | none => .null),
+           ("ttl", match f.ttl with | some t => ttlJ t | none => .null)])
+       | .error _ => bad "bad-json")
+  | _ => bad "unknown-kind"
+
+partial def wireLoop (h : IO.FS.Stream) : IO Unit := do
+  let line ← h.getLine
+  if line.isEmpty then return ()
+  match Json.parse line with
+  | .error e => IO.println (Json.mkObj [("parse-error", .str e)]).compress
+  | .ok j => IO.println (wireStep j).compress
+  wireLoop h
+
 def main (args : List String) : IO UInt32 := do
   let stdin ← IO.getStdin
   match args with
   | ["store"] => storeLoop stdin State.init 0 0; return 0
   | ["follow"] => followLoop stdin {} 0; return 0
+  | ["wire"] => wireLoop stdin; return 0
   | _ => IO.eprintln "usage: xsdrv store"; return 2
